@@ -29,6 +29,8 @@ def snap(obj):
         return json.dumps(obj.to_json(), sort_keys=True, default=str)
     if isinstance(obj, StepMap):
         return json.dumps([list(obj.ranges), obj.inverted])
+    if isinstance(obj, Mapping):
+        return json.dumps([[list(m.ranges), m.inverted] for m in obj.maps] + [list(obj.mirror or []), obj.from_, obj.to])
     if isinstance(obj, list):
         return json.dumps([snap(x) for x in obj])
     if isinstance(obj, dict):
@@ -166,6 +168,22 @@ def run(ctx):
                     mp = Mapping()
                     for m in tr.mapping.maps[-3:]:
                         mp.append_map(m)
+                    # a mapping with mirror pairs that is *not* being appended to: copies / slices / inverses of it are
+                    base = Mapping()
+                    for m in tr.mapping.maps[-2:]:
+                        base.append_map(m)
+                    for i in range(len(base.maps) - 1, -1, -1):
+                        base.append_map(base.maps[i].invert(), i)
+                    live.append(("mapping with mirrors", base))
+                    before.append(("mapping with mirrors", base, snap(base)))
+                    if base.maps:
+                        cp = base.copy()
+                        cp.append_map(base.maps[0], len(cp.maps) - 1)
+                        cp.append_mapping(base)
+                        base.slice(0, len(base.maps)).map(rng.randint(0, 5))     # (a slice is a view sharing the lists: read only)
+                        inv_ = base.invert()
+                        inv_.append_mapping_inverted(base)
+                        new_objs += [cp, inv_]
                     mp2 = mp.invert()
                     mp.append_mapping(mp2)
                     mp.append_mapping_inverted(tr.mapping)
